@@ -327,10 +327,43 @@ func checkB(c CaseB) *core.Violation {
 			continue
 		}
 		if !strings.Contains(all, wnt) {
-			return core.V("console|value-missing|"+c.Kind, "%s callback: console text does not contain %.90q\nconsole: %.600q", c.Kind, wnt, all)
+			// the exact wording of a console line is not part of the property: if the line was merely
+			// reworded, every reported VALUE of it must still be there unaltered
+			if miss := missingValues(c, wnt, all); miss != "" {
+				return core.V("console|value-missing|"+c.Kind, "%s callback: console text does not show the reported value %.90q (expected in %.90q)\nconsole: %.600q", c.Kind, miss, wnt, all)
+			}
 		}
 	}
 	return nil
+}
+
+// missingValues returns the first reported value that occurs in the expected line but nowhere in the
+// console text: generated strings verbatim, integers >= 100000 in decimal or hex, 64-bit values in hex.
+func missingValues(c CaseB, line, console string) string {
+	for _, v := range c.S {
+		if strings.Contains(line, v) && !strings.Contains(console, v) {
+			return v
+		}
+	}
+	for _, n := range c.N {
+		if n < 100000 {
+			continue
+		}
+		d, h := fmt.Sprintf("%d", n), fmt.Sprintf("%x", n)
+		if (strings.Contains(line, d) || strings.Contains(line, h)) && !strings.Contains(console, d) && !strings.Contains(console, h) {
+			return d
+		}
+	}
+	for _, q := range c.Q {
+		if q < 0x100000 {
+			continue
+		}
+		h := fmt.Sprintf("%x", q)
+		if strings.Contains(line, h) && !strings.Contains(console, h) {
+			return h
+		}
+	}
+	return ""
 }
 
 func classifyB(c CaseB) core.Class {
@@ -346,7 +379,7 @@ func classifyB(c CaseB) core.Class {
 func TestC03b(t *testing.T) {
 	core.Run(t, core.Spec[CaseB]{
 		Property: "C03", Sub: "b",
-		Rule: "one of 41 callback kinds with labelled console output; field values are generated markers (ascii / BMP / astral / spaces / backslashes) and integers; the callback is encoded as the Demon encodes it (big-endian, UTF-16LE) and sent through the real listener engine for an outstanding request id; oracle: the Session/Output event operators receive is attributed to the sending session and contains every value next to its label (raw output kinds: exactly equal). Every case is non-trivial; distinct = (kind, row count, astral)",
+		Rule: "one of 41 callback kinds with labelled console output; field values are generated markers (ascii / BMP / astral / spaces / backslashes) and integers; the callback is encoded as the Demon encodes it (big-endian, UTF-16LE) and sent through the real listener engine for an outstanding request id; oracle: the Session/Output event operators receive is attributed to the sending session and contains every value next to its label; if a line is merely reworded, every reported value (strings verbatim, integers >= 100000, 64-bit values) must still appear unaltered (raw output kinds: exactly equal). Every case is non-trivial; distinct = (kind, row count, astral)",
 		Gen:   genB, Check: checkB, Classify: classifyB,
 		Assumptions: []string{"containment next to a label is weaker than a second formatter: it catches truncation, re-encoding and swaps of differently labelled fields"},
 	})
